@@ -123,7 +123,7 @@ def check(scn, hist):
         kw = op.get('k', {})
         oid = rec['id']
         fired = rec['faults_fired']
-        raised_here = [f for f in fired if f[0] in ('raise', 'unplug')]
+        raised_here = [f for f in fired if f[0] in ('raise', 'unplug', 'dead')]
         soft = m in SERIAL_ONLY and any(f[0] == 'raise' and f[2] in ('OSError', 'IOError', 'RuntimeError')
                                         for f in fired)
         # --- 4. no public request method raises
